@@ -4,8 +4,18 @@ use roxmltree::Node;
 use std::fmt::Display;
 use std::str::FromStr;
 
+/// Checks if a node is an element with the given name from the E57 namespace.
+///
+/// The namespace of the root element is used as reference. Elements from other
+/// namespaces belong to E57 extensions and must never be mistaken for standard
+/// elements, even if they use the same tag name.
+pub fn has_name(node: &Node, name: &str) -> bool {
+    let tag = node.tag_name();
+    tag.name() == name && tag.namespace() == node.document().root_element().tag_name().namespace()
+}
+
 pub fn opt_string(parent_node: &Node, tag_name: &str) -> Result<Option<String>> {
-    if let Some(tag) = parent_node.children().find(|n| n.has_tag_name(tag_name)) {
+    if let Some(tag) = parent_node.children().find(|n| has_name(n, tag_name)) {
         let expected_type = "String";
         if let Some(found_type) = tag.attribute("type") {
             if found_type != expected_type {
@@ -33,7 +43,7 @@ fn opt_num<T: FromStr + Sync + Send>(
     tag_name: &str,
     expected_type: &str,
 ) -> Result<Option<T>> {
-    if let Some(tag) = parent_node.children().find(|n| n.has_tag_name(tag_name)) {
+    if let Some(tag) = parent_node.children().find(|n| has_name(n, tag_name)) {
         if let Some(found_type) = tag.attribute("type") {
             if found_type != expected_type {
                 Error::invalid(format!(
@@ -75,7 +85,7 @@ pub fn req_int<T: FromStr + Send + Sync>(parent_node: &Node, tag_name: &str) -> 
 }
 
 pub fn opt_date_time(parent_node: &Node, tag_name: &str) -> Result<Option<DateTime>> {
-    if let Some(tag) = parent_node.children().find(|n| n.has_tag_name(tag_name)) {
+    if let Some(tag) = parent_node.children().find(|n| has_name(n, tag_name)) {
         let expected_type = "Structure";
         if let Some(found_type) = tag.attribute("type") {
             if found_type != expected_type {
@@ -93,7 +103,7 @@ pub fn opt_date_time(parent_node: &Node, tag_name: &str) -> Result<Option<DateTi
 }
 
 pub fn opt_transform(parent_node: &Node, tag_name: &str) -> Result<Option<Transform>> {
-    let node = parent_node.children().find(|n| n.has_tag_name(tag_name));
+    let node = parent_node.children().find(|n| has_name(n, tag_name));
     if let Some(node) = node {
         Ok(Some(Transform::from_node(&node)?))
     } else {
